@@ -29,6 +29,10 @@ def c05Spec (kind : String) (data : Obj) : Option Str :=
 def c05Op (args : List String) : String :=
   match run pRenderCase args with
   | some (c, []) =>
+    -- ranges too long to materialise (also for the model): judged by the no-panic oracle only
+    if c.kind == "range-huge" then
+      (if c.obsTag == "PANIC" then "specfail range-huge law=no-panic impl=PANIC" else "ok range-huge")
+    else
     let env : Env := Env.ofList c.partials baseFilters
     let r := renderTop defaultFuel env c.tmpl c.data
     let specVerdict : Option Bool := (c05Spec c.kind c.data).map fun s => (c.obsTag == "ok" && c.obsPayload == xstr s)
